@@ -515,7 +515,7 @@ def run_one(seed, preset=None, tier="quick", want_case=False):
     r["evals"] = max(1, compared)
     multi = any(m in ("files", "dir") for m in modes)
     r["nontrivial"] = bool(not viol and exts and len(modes) >= 2 and multi)
-    r["sched_kinds"] = {sch[0]: 1}
+    r["sched_kinds"] = {sch[0] + ("+eager" if sch[2].endswith("+eager") else ""): 1}
     r["faults"] = {"glob_order_permuted": glob_calls[0], "extension_kinds_" + "_".join(sorted({e.kind for e in exts})): 1 if exts else 0}
     r["metrics"] = {"engines": len(modes), "extensions": len(exts), "types": len(schema.types), "custom_directives": len(schema.directives),
                     "files_written": sum(len(v) for v in layout_desc.values())}
